@@ -36,7 +36,7 @@ type tsoRunCfg struct {
 
 func runTSOWorld(rc *core.RunCtx, cfg tsoRunCfg, setup func(o *tsoOracle)) {
 	s := rc.S
-	e := Setup(rc, Opts{MinNodes: cfg.minNodes, MaxNodes: cfg.maxNodes, Faults: cfg.faults})
+	e := Setup(rc, Opts{MinNodes: cfg.minNodes, MaxNodes: cfg.maxNodes, Faults: cfg.faults, TSOKnobs: cfg.prop == "c01" || cfg.prop == "c02"})
 	e.trackMembers()
 	o := newTSOOracle(rc, e)
 	setup(o)
